@@ -12,6 +12,7 @@ CONSTANTS
   PtrLookups <- MCPtrLookups
   KeepADOnStrippedFallback = TRUE
   ZeroNegTtlIgnored = TRUE
+  AllBadNetsOpen = FALSE
 INIT Init
 NEXT Next
 INVARIANTS TypeOK SynthOnlyWhenAllowed NeverOverFailure NoLookupOverFailure WellKnownSkipsExcludedV4 SynthExact OwnerAfterChain GatesPassThrough PtrOnlyWhenAllowed
